@@ -332,3 +332,207 @@ Example server_hello_example :
                 [(0xFFA5, [1; 2; 3])] in
   server_hello_wf m = true /\ exists bytes, enc_seq (tree_server_hello m) = Ok bytes /\ Zlen bytes = 135.
 Proof. split; [reflexivity|]. eexists. split; vm_compute; reflexivity. Qed.
+
+Ltac none_by_known H :=
+  cbn [existsb] in H;
+  repeat match goal with |- context [if ?c then _ else _] => destruct c; [discriminate H|] end;
+  reflexivity.
+
+Lemma Forall_u16 l : forallb u16b l = true -> Forall (u_ok 2) l.
+Proof.
+  intros H. apply Forall_forall. intros v Hv. rewrite forallb_forall in H. specialize (H v Hv).
+  unfold u16b in H. unfold u_ok. u16_bound.
+Qed.
+
+Lemma Forall_u8 l : forallb u8b l = true -> Forall (u_ok 1) l.
+Proof.
+  intros H. apply Forall_forall. intros v Hv. rewrite forallb_forall in H. specialize (H v Hv).
+  unfold u8b in H. unfold u_ok. u8_bound.
+Qed.
+
+(* ================= NewSessionTicket ========================================================================= *)
+Definition nst_xs (m : new_session_ticket) : list xspec :=
+  xo (fun v => XKnown 42 [TInt 4 v] [v]) (nst_max_early_data_size m) ++ x_others (nst_other_extensions m).
+
+Lemma nst_exts_xs m : nst_exts m = flat_map x_tree (nst_xs m).
+Proof.
+  unfold nst_exts, nst_xs. rewrite !flat_map_app, x_tree_others.
+  destruct (nst_max_early_data_size m); reflexivity.
+Qed.
+
+Definition new_session_ticket_wf (m : new_session_ticket) : bool :=
+  u32b (nst_lifetime m) && u32b (nst_age_add m) && opt_b u32b (nst_max_early_data_size m) &&
+  forallb (ext_wf [42]) (nst_other_extensions m).
+
+Lemma nst_xs_ok m : new_session_ticket_wf m = true -> Forall (x_ok parse_nst_ext) (nst_xs m).
+Proof.
+  intros Wf. unfold new_session_ticket_wf, u32b in Wf. unfold nst_xs.
+  repeat (apply Forall_app; split).
+  - apply Forall_xo. intros v Hv. rewrite Hv in Wf. cbn [opt_b] in Wf. cbn [x_ok]. split; [lia|].
+    intros _ len rest. rewrite flat_single, flat_int. unfold parse_nst_ext, pull_uint32. cbn [Z.eqb Pos.eqb].
+    rewrite pull_be_roundtrip by u32_bound. reflexivity.
+  - apply (others_ok _ [42]); [|lia].
+    intros ty len b H. unfold parse_nst_ext. none_by_known H.
+Qed.
+
+Lemma nst_out_est m :
+  out_est NST_ORDER (fold_left (x_step false) (nst_xs m) est0) =
+  dump_opt (fun v => [v]) (nst_max_early_data_size m) ++ dump_list dump_ext (nst_other_extensions m).
+Proof.
+  unfold nst_xs. rewrite !fold_left_app, fold_others.
+  destruct (nst_max_early_data_size m); cbn; repeat rewrite <- app_assoc; reflexivity.
+Qed.
+
+Theorem new_session_ticket_roundtrip m bytes rest : new_session_ticket_wf m = true ->
+  enc_seq (tree_new_session_ticket m) = Ok bytes ->
+  pull_new_session_ticket (bytes ++ rest) = Ok (dump_new_session_ticket m, rest).
+Proof.
+  intros Wf E. apply enc_seq_ok in E as [W ->].
+  pose proof (nst_xs_ok m Wf) as Hxs. pose proof (nst_out_est m) as Hout.
+  unfold new_session_ticket_wf, u32b in Wf.
+  unfold pull_new_session_ticket, tree_new_session_ticket, dump_new_session_ticket in *.
+  apply (message_enc 4 (fun b =>
+           '(lt, b1) <- pull_uint32 b ;; '(aa, b2) <- pull_uint32 b1 ;; '(nonce, b3) <- pull_opaque 1 b2 ;;
+           '(ticket, b4) <- pull_opaque 2 b3 ;; '(st, b5) <- pull_extensions parse_nst_ext false b4 ;;
+           Ok ([lt; aa] ++ out_bytes nonce ++ out_bytes ticket ++ out_est NST_ORDER st, b5))); [lia|exact W|].
+  rewrite !fits_seq_cons, fits_block, !fits_seq_cons, !fits_int, fits_seq_nil in W.
+  rewrite !flat_seq_cons, flat_seq_nil, !flat_int, app_nil_r. repeat rewrite <- app_assoc.
+  unfold pull_uint32.
+  rewrite pull_be_roundtrip by u32_bound. cbn [bind].
+  rewrite pull_be_roundtrip by u32_bound. cbn [bind].
+  rewrite pull_opaque_tv by lia. cbn [bind].
+  rewrite pull_opaque_tv by lia. cbn [bind].
+  rewrite nst_exts_xs in *.
+  rewrite pull_extensions_enc; [|exact Hxs|apply psk_order_false|lia].
+  cbn [bind]. rewrite Hout. repeat rewrite <- app_assoc. reflexivity.
+Qed.
+
+Example new_session_ticket_example :
+  let m := mkNST 86400 4294967295 [1; 2; 3; 4; 5; 6; 7; 8] (repeat 90 700) (Some 4294967295) [(57, [0; 1])] in
+  new_session_ticket_wf m = true /\ exists bytes, enc_seq (tree_new_session_ticket m) = Ok bytes /\ Zlen bytes = 739.
+Proof. split; [reflexivity|]. eexists. split; vm_compute; reflexivity. Qed.
+
+(* ================= CertificateRequest =========================================================================== *)
+Definition cr_xs (m : certificate_request) : list xspec :=
+  [XKnown 13 [t_uints 2 2 (cr_signature_algorithms m)] (dump_ints (cr_signature_algorithms m))] ++
+  x_others (cr_other_extensions m).
+
+Lemma cr_exts_xs m : cr_exts m = flat_map x_tree (cr_xs m).
+Proof. unfold cr_exts, cr_xs. rewrite !flat_map_app, x_tree_others. reflexivity. Qed.
+
+Definition certificate_request_wf (m : certificate_request) : bool :=
+  forallb u16b (cr_signature_algorithms m) && forallb (ext_wf [13]) (cr_other_extensions m).
+
+Lemma cr_xs_ok m : certificate_request_wf m = true -> Forall (x_ok parse_cr_ext) (cr_xs m).
+Proof.
+  intros Wf. unfold certificate_request_wf in Wf. apply andb_prop in Wf as [W1 W2]. unfold cr_xs.
+  apply Forall_app; split.
+  - constructor; [|constructor]. cbn [x_ok]. split; [lia|].
+    intros Wk len rest. rewrite flat_single. rewrite fits_single in Wk.
+    unfold parse_cr_ext. cbn [Z.eqb Pos.eqb].
+    rewrite uints_enc; [reflexivity|lia|now apply Forall_u16|exact Wk].
+  - apply (others_ok _ [13]); [|exact W2].
+    intros ty len b H. unfold parse_cr_ext. none_by_known H.
+Qed.
+
+Lemma cr_out_est m :
+  out_est CR_ORDER (fold_left (x_step false) (cr_xs m) est0) =
+  (1 :: dump_ints (cr_signature_algorithms m)) ++ dump_list dump_ext (cr_other_extensions m).
+Proof.
+  unfold cr_xs. rewrite !fold_left_app, fold_others. cbn. repeat rewrite <- app_assoc. reflexivity.
+Qed.
+
+Theorem certificate_request_roundtrip m bytes rest : certificate_request_wf m = true ->
+  enc_seq (tree_certificate_request m) = Ok bytes ->
+  pull_certificate_request (bytes ++ rest) = Ok (dump_certificate_request m, rest).
+Proof.
+  intros Wf E. apply enc_seq_ok in E as [W ->].
+  pose proof (cr_xs_ok m Wf) as Hxs. pose proof (cr_out_est m) as Hout.
+  unfold pull_certificate_request, tree_certificate_request, dump_certificate_request in *.
+  apply (message_enc 13 (fun b =>
+           '(ctx, b1) <- pull_opaque 1 b ;; '(st, b2) <- pull_extensions parse_cr_ext false b1 ;;
+           Ok (out_bytes ctx ++ out_est CR_ORDER st, b2))); [lia|exact W|].
+  rewrite !fits_seq_cons, fits_block, !fits_seq_cons, !fits_int, fits_seq_nil in W.
+  rewrite !flat_seq_cons, flat_seq_nil, app_nil_r. repeat rewrite <- app_assoc.
+  rewrite pull_opaque_tv by lia. cbn [bind].
+  rewrite cr_exts_xs in *.
+  rewrite pull_extensions_enc; [|exact Hxs|apply psk_order_false|lia].
+  cbn [bind]. rewrite Hout. repeat rewrite <- app_assoc. reflexivity.
+Qed.
+
+Example certificate_request_example :
+  let m := mkCR [1; 2; 3; 4] [0x0403; 0x0804; 0x0401] [(27, [2; 0; 2])] in
+  certificate_request_wf m = true /\ exists bytes, enc_seq (tree_certificate_request m) = Ok bytes /\ Zlen bytes = 30.
+Proof. split; [reflexivity|]. eexists. split; vm_compute; reflexivity. Qed.
+
+(* ================= EncryptedExtensions ============================================================================ *)
+Definition ee_xs (m : encrypted_extensions) : list xspec :=
+  xo (fun a => XKnown 16 [t_opaques 2 1 [a]] (out_bytes a)) (ee_alpn_protocol m) ++
+  (if ee_early_data m then [XKnown 42 [] []] else []) ++ x_others (ee_other_extensions m).
+
+Lemma ee_exts_xs m : ee_exts m = flat_map x_tree (ee_xs m).
+Proof.
+  unfold ee_exts, ee_xs. rewrite !flat_map_app, x_tree_others.
+  destruct (ee_alpn_protocol m), (ee_early_data m); reflexivity.
+Qed.
+
+(* the ALPN protocol name is ASCII (push: str.encode("ascii")) *)
+Definition encrypted_extensions_wf (m : encrypted_extensions) : bool :=
+  opt_b is_ascii (ee_alpn_protocol m) && forallb (ext_wf [16; 42]) (ee_other_extensions m).
+
+Lemma ztake_app_exact {A} (a b : list A) : ztake (Zlen a) (a ++ b) = a.
+Proof. unfold ztake, Zlen. rewrite Nat2Z.id. apply firstn_app_exact. Qed.
+
+Lemma ee_alpn_ext a : is_ascii a = true -> x_ok parse_ee_ext (XKnown 16 [t_opaques 2 1 [a]] (out_bytes a)).
+Proof.
+  intros Ha. cbn [x_ok]. split; [lia|]. intros Wk len rest.
+  rewrite flat_single. rewrite fits_single in Wk.
+  unfold parse_ee_ext. cbn [Z.eqb Pos.eqb].
+  pose proof (alpns_enc [a] rest (Forall_cons a Ha (Forall_nil _)) Wk) as L.
+  unfold list_toks in L.
+  destruct (pull_list 2 item_alpn acc0 (flat_tv (t_opaques 2 1 [a]) ++ rest)) as [[[n toks] r]|k] eqn:E;
+    cbn [bind] in L; [|discriminate L].
+  injection L as -> -> ->. cbn [bind fst snd flat_map app].
+  change (Zlen [a]) with 1. cbn [Z.eqb]. unfold out_bytes at 1. cbn [app].
+  rewrite ztake_app_exact. reflexivity.
+Qed.
+
+Lemma ee_xs_ok m : encrypted_extensions_wf m = true -> Forall (x_ok parse_ee_ext) (ee_xs m).
+Proof.
+  intros Wf. unfold encrypted_extensions_wf in Wf. apply andb_prop in Wf as [W1 W2]. unfold ee_xs.
+  repeat (apply Forall_app; split).
+  - apply Forall_xo. intros a Ha. rewrite Ha in W1. cbn [opt_b] in W1. now apply ee_alpn_ext.
+  - destruct (ee_early_data m); [|constructor]. constructor; [|constructor].
+    cbn [x_ok]. split; [lia|]. intros _ len rest. reflexivity.
+  - apply (others_ok _ [16; 42]); [|exact W2].
+    intros ty len b H. unfold parse_ee_ext. none_by_known H.
+Qed.
+
+Lemma ee_out_est m :
+  out_est EE_ORDER (fold_left (x_step false) (ee_xs m) est0) =
+  dump_opt out_bytes (ee_alpn_protocol m) ++ dump_flag (ee_early_data m) ++ dump_list dump_ext (ee_other_extensions m).
+Proof.
+  unfold ee_xs. rewrite !fold_left_app, fold_others.
+  destruct (ee_alpn_protocol m), (ee_early_data m); cbn; repeat rewrite <- app_assoc; reflexivity.
+Qed.
+
+Theorem encrypted_extensions_roundtrip m bytes rest : encrypted_extensions_wf m = true ->
+  enc_seq (tree_encrypted_extensions m) = Ok bytes ->
+  pull_encrypted_extensions (bytes ++ rest) = Ok (dump_encrypted_extensions m, rest).
+Proof.
+  intros Wf E. apply enc_seq_ok in E as [W ->].
+  pose proof (ee_xs_ok m Wf) as Hxs. pose proof (ee_out_est m) as Hout.
+  unfold pull_encrypted_extensions, tree_encrypted_extensions, dump_encrypted_extensions in *.
+  apply (message_enc 8 (fun b =>
+           '(st, b1) <- pull_extensions parse_ee_ext false b ;; Ok (out_est EE_ORDER st, b1))); [lia|exact W|].
+  rewrite !fits_seq_cons, fits_block, !fits_seq_cons, !fits_int, fits_seq_nil in W.
+  rewrite !flat_seq_cons, flat_seq_nil, app_nil_r.
+  rewrite ee_exts_xs in *.
+  rewrite pull_extensions_enc; [|exact Hxs|apply psk_order_false|lia].
+  cbn [bind]. rewrite Hout. reflexivity.
+Qed.
+
+Example encrypted_extensions_example :
+  let m := mkEE (Some [104; 51]) true [(57, repeat 3 40)] in
+  encrypted_extensions_wf m = true /\ exists bytes, enc_seq (tree_encrypted_extensions m) = Ok bytes /\ Zlen bytes = 63.
+Proof. split; [reflexivity|]. eexists. split; vm_compute; reflexivity. Qed.
